@@ -82,7 +82,13 @@ def run_case(case):
     ev = {"quadrature_products_compared": 0, "weight_sums": 0, "basis_integrals_compared": 0, "uniform_periodic_equal_weights": 0}
     wit0 = {"cfg": cfg, "breaks": [float(x) for x in breaks], "kappa": float(kappa_only), "cancel": float(cancel)}
     interp = spl.SplineInterpolator1D(basis)
-    q = np.asarray(interp.get_quadrature_coefficients(), dtype=float)
+    q = np.array(interp.get_quadrature_coefficients(), dtype=float, copy=True)
+    # history: asking again (same interpolator, and a second interpolator on the same space object) must give the same weights
+    q_again = np.array(interp.get_quadrature_coefficients(), dtype=float, copy=True)
+    q_other = np.array(spl.SplineInterpolator1D(basis).get_quadrature_coefficients(), dtype=float, copy=True)
+    if q.shape == q_again.shape == q_other.shape and not (np.array_equal(q, q_again) and np.allclose(q, q_other, rtol=1e-12, atol=1e-300)):
+        return result(VIOL, cls=[name], events=ev, key=_key(cfg, "repeated-call"), what="%s: quadrature weights change when requested again for the same space (max change %.3g / %.3g)"
+                      % (name, float(np.abs(q - q_again).max()), float(np.abs(q - q_other).max())), witness=wit0)
     if q.shape != (nb,):
         return result(VIOL, cls=[name], events=ev, key=_key(cfg, "shape"), what="%s: %d quadrature weights for %d interpolation points" % (name, q.size, nb), witness=wit0)
     # stored basis integrals vs exact
